@@ -18,14 +18,15 @@ def arr(v, shape, what, key, case):
 
 
 def cmp(got, ref, what, key, case, rtol=1e-9, atol=1e-12, terms=0.0):
-    """terms: size of the largest terms summed into an entry of the reference (cancellation noise ~1e-16*terms); entries are
-    judged no finer than 1e-13*terms."""
+    """terms: (array of) the sum of the absolute values of the terms added up into each entry of the reference; the reference
+    (and the code under test, if it evaluates the same sum) carries rounding noise of a few eps times that, so an entry is
+    judged no finer than 4e-15*terms."""
     got = np.asarray(got, float)
     ref = np.asarray(ref, float)
     scale = np.maximum(np.abs(ref), np.abs(got))
     # the absolute floor scales with the largest entry: an entry that is zero by cancellation of terms of size M carries
     # rounding noise of order 1e-16*M in the reference itself
-    floor = atol * (1 + (float(np.abs(ref).max()) if ref.size else 0.0)) + 1e-13 * float(terms)
+    floor = atol * (1 + (float(np.abs(ref).max()) if ref.size else 0.0)) + 4e-15 * np.asarray(terms, float)
     bad = (np.abs(got - ref) > rtol * scale + floor) | ~np.isfinite(got)
     if bad.any():
         i = tuple(int(k) for k in np.argwhere(bad)[0])
